@@ -102,6 +102,22 @@ class Run:
     def timeout(self):
         return 10 if self.tier == "quick" else 60
 
+    def _shape_changed(self, oid):
+        if not hasattr(self, "_shapes"):
+            try:
+                import importlib.util
+                spec = importlib.util.spec_from_file_location("gen_shapes", os.path.join(ROOT, "tools", "gen_shapes.py")); gs = importlib.util.module_from_spec(spec); spec.loader.exec_module(gs)
+                pinned = json.load(open(os.path.join(ROOT, "contracts", "SHAPES.json")))
+                cur = gs.shapes(Source())
+                self._shapes = {q: (json.loads(json.dumps(cur.get(q))) != pinned[q]) for q in pinned}
+                ch = sorted(q for q, c in self._shapes.items() if c)
+                if ch: self.notes.append("restructured relative to contracts/SHAPES.json (refutations of their side-car clauses need a concrete witness): " + ", ".join(ch))
+            except Exception as e:
+                self._shapes = {}
+        for q, changed in self._shapes.items():
+            if changed and (oid.startswith(q + "/") or oid.startswith(q + "[")): return True
+        return False
+
     def discharge(self, ob, replay=None):
         """ob: dict(id, hyps, goal, kind, meta).  replay: callable(model dict, z3model) -> dict(confirmed, detail, call) or None"""
         so = self.tier == "thorough" and self.second_asked < 400 and self.second_time < 120
@@ -130,7 +146,12 @@ class Run:
                 except Exception as e:
                     rep = {"confirmed": False, "detail": "replay crashed: %s" % e, "trace": traceback.format_exc()}
             rec["replay"] = rep
-            if ob.get("meta", {}).get("abstract") and not (rep and rep.get("confirmed")):
+            if self._shape_changed(ob["id"]) and not (rep and rep.get("confirmed")):
+                # the function has another statement structure than the one its side-car loop invariants / slice map were written for
+                # (contracts/SHAPES.json): a counter-model over havoc'd loop state or a re-located slice is not an input of the real code
+                rec["verdict"] = solver.UNDECIDED; rec["reason"] = "refuted, but the function was restructured relative to its side-car invariants / slices and no concrete witness replays: left to the bounded layer"
+                self.undecided.append(ob["id"] + " (" + rec["reason"] + ")")
+            elif ob.get("meta", {}).get("abstract") and not (rep and rep.get("confirmed")):
                 # the clause is stated over uninterpreted library functions: a counter-model of those is not an input of the real code.
                 # Without a concrete witness from the replay the clause is undecided, never a violation.
                 rec["verdict"] = solver.UNDECIDED; rec["reason"] = "refuted only over uninterpreted library abstractions; the concrete probes found no witness"
